@@ -37,9 +37,19 @@ fn buf_sizes(d: &Dgram) -> [usize; 4] {
 }
 
 /// Judge one handle call. `tag` distinguishes the sweeps in the trace.
-fn judge(ctx: &Ctx, trace: &dyn Fn() -> String, d: &Dgram, out: &Outcome, tally: &mut BTreeMap<String, u64>) {
+fn judge(
+    ctx: &Ctx,
+    trace: &dyn Fn() -> String,
+    d: &Dgram,
+    out: &Outcome,
+    tally: &mut BTreeMap<String, u64>,
+) {
     if let Some(e) = &out.panic {
-        ctx.violation("C21:handle-panic", format!("Server::handle panicked: {e}"), trace());
+        ctx.violation(
+            "C21:handle-panic",
+            format!("Server::handle panicked: {e}"),
+            trace(),
+        );
         return;
     }
     let seen = c15::classify(out.resp.as_deref(), d.version);
@@ -49,7 +59,11 @@ fn judge(ctx: &Ctx, trace: &dyn Fn() -> String, d: &Dgram, out: &Outcome, tally:
         0 => {
             ctx.violation(
                 "C21:no-registration",
-                format!("request {} was handled (answer: {}) without any statistics entry", d.name, seen.ans.tag()),
+                format!(
+                    "request {} was handled (answer: {}) without any statistics entry",
+                    d.name,
+                    seen.ans.tag()
+                ),
                 trace(),
             );
             *tally.entry("regs.0".into()).or_insert(0) += 1;
@@ -58,7 +72,10 @@ fn judge(ctx: &Ctx, trace: &dyn Fn() -> String, d: &Dgram, out: &Outcome, tally:
         n => {
             ctx.violation(
                 "C21:multiple-registrations",
-                format!("request {} produced {n} statistics entries: {:?}", d.name, out.regs),
+                format!(
+                    "request {} produced {n} statistics entries: {:?}",
+                    d.name, out.regs
+                ),
                 trace(),
             );
             *tally.entry("regs.many".into()).or_insert(0) += 1;
@@ -67,7 +84,12 @@ fn judge(ctx: &Ctx, trace: &dyn Fn() -> String, d: &Dgram, out: &Outcome, tally:
     }
     let (_version, nts, reason, response) = out.regs[0];
     *tally
-        .entry(format!("rec.{}.{:?}.{}", resp_tag(response), reason, if nts { "nts" } else { "plain" }))
+        .entry(format!(
+            "rec.{}.{:?}.{}",
+            resp_tag(response),
+            reason,
+            if nts { "nts" } else { "plain" }
+        ))
         .or_insert(0) += 1;
     // kind matches what was done
     let expect = match seen.ans {
@@ -80,7 +102,11 @@ fn judge(ctx: &Ctx, trace: &dyn Fn() -> String, d: &Dgram, out: &Outcome, tally:
     match expect {
         Some(e) if e == response => {}
         Some(_) => ctx.violation(
-            &format!("C21:kind-mismatch:did-{}:recorded-{}", seen.ans.tag(), resp_tag(response)),
+            &format!(
+                "C21:kind-mismatch:did-{}:recorded-{}",
+                seen.ans.tag(),
+                resp_tag(response)
+            ),
             format!(
                 "request {}: the server {} but recorded {:?}/{:?}",
                 d.name,
@@ -95,7 +121,10 @@ fn judge(ctx: &Ctx, trace: &dyn Fn() -> String, d: &Dgram, out: &Outcome, tally:
         ),
         None => ctx.violation(
             "C21:unclassifiable-answer",
-            format!("request {}: answer of {} bytes is neither time, DENY nor NAK (recorded {:?})", d.name, seen.len, response),
+            format!(
+                "request {}: answer of {} bytes is neither time, DENY nor NAK (recorded {:?})",
+                d.name, seen.len, response
+            ),
             trace(),
         ),
     }
@@ -112,7 +141,13 @@ fn judge(ctx: &Ctx, trace: &dyn Fn() -> String, d: &Dgram, out: &Outcome, tally:
         }
         Kind::NtsValid | Kind::NtsBad => {
             if out.resp.is_some() {
-                *tally.entry(format!("nts-answered.{}.{}", seen.ans.tag(), if nts { "flag" } else { "NOFLAG" })).or_insert(0) += 1;
+                *tally
+                    .entry(format!(
+                        "nts-answered.{}.{}",
+                        seen.ans.tag(),
+                        if nts { "flag" } else { "NOFLAG" }
+                    ))
+                    .or_insert(0) += 1;
                 if !nts {
                     let class = if d.kind == Kind::NtsBad && seen.ans == Ans::Deny {
                         "C21:nts-flag-missing-on-denied-undecryptable".to_string()
@@ -165,9 +200,21 @@ fn replay(ctx: &Ctx, trace: &str) -> String {
         let t = || trace.to_string();
         judge(ctx, &t, d, &out, &mut tally);
         let seen = c15::classify(out.resp.as_deref(), d.version);
-        obs.push(format!("did={} len={} regs={:?} panic={:?}", seen.ans.tag(), seen.len, out.regs, out.panic));
+        obs.push(format!(
+            "did={} len={} regs={:?} panic={:?}",
+            seen.ans.tag(),
+            seen.len,
+            out.regs,
+            out.panic
+        ));
     }
-    format!("request={} ({:?}) buf={} -> {}", d.name, d.kind, bufsize, obs.join(" ; "))
+    format!(
+        "request={} ({:?}) buf={} -> {}",
+        d.name,
+        d.kind,
+        bufsize,
+        obs.join(" ; ")
+    )
 }
 
 /// Print NTS request fixtures for the ntpd half (`VERIF_GF_EMIT=1`): requests that
@@ -210,7 +257,9 @@ fn check() {
     );
     ctx.assume("what was 'actually done' is read from the returned ServerAction and the answer bytes (harness walker: stratum, kiss code / v5 flags), not from the decoder under test");
     ctx.assume("an 'NTS request' is a datagram that carries NTS fields (cookie and/or authenticator), whether or not it authenticates; a 'plain request' carries none");
-    ctx.assume("the version argument of register is not constrained by the statement and is not judged");
+    ctx.assume(
+        "the version argument of register is not constrained by the statement and is not judged",
+    );
     ctx.set("factor.addresses", addrs.len() as u64);
     ctx.set("factor.policies", pols.len() as u64);
     ctx.set("factor.datagrams", alpha.len() as u64);
@@ -232,7 +281,8 @@ fn check() {
                     let trace = || format!("{};addr={};dg={};buf={}", p.trace(), addr, d.name, bs);
                     judge(&ctx, &trace, d, &out, &mut tally);
                     if let Some(r) = out.regs.first() {
-                        let attempted = r.3 != ServerResponse::Ignore || r.2 == ServerReason::InternalError;
+                        let attempted =
+                            r.3 != ServerResponse::Ignore || r.2 == ServerReason::InternalError;
                         if attempted {
                             hashes.push(common::hash_of(&(pi, ai, di, *bs)));
                         }
@@ -276,7 +326,15 @@ fn check() {
                 for rep in 1..=2usize {
                     let out = c15::run_handle(&mut server, *addr, &d.bytes, &mut buf);
                     n += 1;
-                    let trace = || format!("{};addr={};dg={};buf=4096;rep={}", p.trace(), addr, d.name, rep);
+                    let trace = || {
+                        format!(
+                            "{};addr={};dg={};buf=4096;rep={}",
+                            p.trace(),
+                            addr,
+                            d.name,
+                            rep
+                        )
+                    };
                     judge(&ctx, &trace, d, &out, &mut tally);
                     if out.regs.first().map(|r| r.2) == Some(ServerReason::RateLimit) {
                         hashes.push(common::hash_of(&("rl", pi, ai, di)));
